@@ -42,7 +42,9 @@ def check_record(args):
         P = rnd.choice([1.0, 0.37, 25.0])
         m.power = P
         k = 2 * math.pi / lam
-        zen = Angle(rnd.choice([0, 7.5, 13]), rnd.choice([30, 41.5, 22.5]), 3 if ground else 5)
+        # zenith angles are not confined to 0..180: an elevation cut across the zenith (negative angles) or past the nadir
+        # names directions of the sphere as well (theta, phi) = (-theta, phi + 180)
+        zen = Angle(rnd.choice([0, 7.5, 13, -60] if ground else [0, 7.5, 13, -75, 150]), rnd.choice([30, 41.5, 22.5]), 3 if ground else 5)
         azi = Angle(rnd.choice([0, 11, -40]), rnd.choice([90, 67, 120]), 4)
         pw = rnd.choice([None, 100.0, 0.02])
         dist = rnd.choice([0, 1000.0, 37.5])
